@@ -1516,7 +1516,9 @@ class Stream(AbstractStream):
                 self.reduce_phases()
             else:
                 if energy_balance: 
-                    self._imol.mix_from([i._imol for i in streams])
+                    # The receiver may be one of the inlets; its original flows are needed again if the phases must be expanded
+                    imols = [i._imol.copy() if i is self else i._imol for i in streams]
+                    self._imol.mix_from(imols)
                     if conserve_phases: 
                         self.H = H
                     else:
@@ -1524,7 +1526,7 @@ class Stream(AbstractStream):
                             self.H = H
                         except:
                             self.phases = self.phase + ''.join([i.phase for i in others if isa(i, Stream)])
-                            self._imol.mix_from([i._imol for i in streams])
+                            self._imol.mix_from(imols)
                             self.H = H
                 else:
                     self._imol.mix_from([i._imol for i in streams])
